@@ -150,6 +150,30 @@ def eval_benign(bid, k):
     meta["status"] = "silent" if not meta["nonzero_exit"] else "ALARM/nonzero"
     return meta
 
+def x_checks(pid, k, claimed):
+    """Cross-cutting seeds: the checks of the properties the author names, their neighbours, and the
+    checks stated about the layer the patch touches."""
+    want = []
+    try:
+        named = re.findall(r"C\d\d", open(f"{SEEDS}/{pid}/prop{k}.txt").read())
+    except OSError:
+        named = []
+    for p in named:
+        for c in RELATED.get(p, [p]):
+            if c not in want:
+                want.append(c)
+    try:
+        patch = open(f"{SEEDS}/{pid}/patch{k}.diff").read()
+    except OSError:
+        patch = ""
+    layer = {"macros/src/fn_": ["C15", "C16"], "macros/src/derive": ["C17", "C08"], "bevy/src": ["C18", "C19"], "interpolation.rs": ["C14", "C01"], "glam.rs": ["C14"], "easing.rs": ["C13", "C01"], "time_scale.rs": ["C03", "C20"], "animator.rs": ["C05", "C06", "C07", "C20"]}
+    for key, cs in layer.items():
+        if key in patch:
+            for c in cs:
+                if c not in want:
+                    want.append(c)
+    return want or claimed
+
 def main():
     if len(sys.argv) < 2:
         print(__doc__); return 2
@@ -188,7 +212,7 @@ def main():
     for a in args:
         pid, _, ks = a.partition(":")
         for k in ([int(ks)] if ks else ([1, 2, 3, 4] if pid.startswith("X") else [1, 2, 3])):
-            checks = checks_override or [c for c in RELATED.get(pid, claimed if pid.startswith("X") else [pid]) if c in claimed]
+            checks = checks_override or [c for c in RELATED.get(pid, x_checks(pid, k, claimed) if pid.startswith("X") else [pid]) if c in claimed]
             m = eval_seed(pid, k, checks)
             out = f"/verif/seeded/{pid}-{TAG}{k}"
             print(f"== {pid}-{TAG}{k}: {m.get('status')} caught_by={m.get('caught_by')} tests={m.get('existing_tests_with_patch',{}).get('ok')} demo_fails={m.get('demo_with_patch_fails')} demo_pristine={m.get('demo_pristine_passes')}", flush=True)
